@@ -963,6 +963,15 @@ def cases_concurrent(tier):
                 yield {'w': 'rt', 'fam': 'concurrent-large', 'events': evs, 'cuts': cuts}
 
 
+def cases_many(tier):
+    """many events in flight at once on the same connections (call ids, result routing and buffers at scale)"""
+    for n in ((30,) if tier != 'thorough' else (30, 120)):
+        for r0 in range(NROUTES):
+            evs = [ev((r0 + (k % 2) * (k // 2)) % NROUTES if k % 5 == 0 else r0, [k, 'arg%d' % k], None, None, None,
+                      ['gen', 'G%d' % k, (k * 7) % 4] if k % 3 else ['ret', 'R%d' % k]) for k in range(n)]
+            yield {'w': 'rt', 'fam': 'concurrent-many', 'events': evs}
+
+
 FWKINDS = [None, 'allow', 'deny', 'deny:t1', 'deny:t0']
 
 
@@ -1038,7 +1047,7 @@ def cases_notify(tier):
 
 
 def cases_rt(tier):
-    return itertools.chain(cases_variety(tier), cases_cuts(tier), cases_concurrent(tier), cases_firewall(tier), cases_notify(tier))
+    return itertools.chain(cases_variety(tier), cases_cuts(tier), cases_concurrent(tier), cases_many(tier), cases_firewall(tier), cases_notify(tier))
 
 
 # ---------------------------------------------------------------------------------------------------
@@ -1586,7 +1595,7 @@ def run(tier, seed, workers):
             st.selfcheck_errors.append('determinism: two runs of %s differ' % short(p, 80))
     st.states = len(st.outcomes)
     keys, dunders = meta_keys()
-    st.bounds = {'cases': total, 'events_in_flight': 3, 'routes': NROUTES, 'argument_shapes': len(ARGS), 'handler_behaviours': len(BEHS),
+    st.bounds = {'cases': total, 'events_in_flight': 30 if tier != 'thorough' else 120, 'routes': NROUTES, 'argument_shapes': len(ARGS), 'handler_behaviours': len(BEHS),
                  'largest_event_bytes': 70000, 'largest_hostile_packet_bytes': 2 ** 20, 'metadata_keys': len(keys) + len(dunders),
                  'metadata_key_pairs': len(keys) * (len(keys) - 1) // 2, 'dispatcher_attributes_compared': len(DISPATCH_ATTRS),
                  'tick_round_horizon': 60, 'run_iteration_horizon': 40, 'notify_mix_sequence_length': 3,
